@@ -119,9 +119,7 @@ def name_class(name: str) -> str:
         return "reject"
     if nc >= 2:
         return "accepted"
-    if nb < 2:
-        return "reject"
-    return "grey"
+    return "reject"          # fewer than two characters is "too short", whatever its encoded size
 
 
 def floor_minute_seconds(s: int) -> int:
